@@ -103,7 +103,7 @@ def bad_value(rng):
         #  what J cannot hold is a non-container or a non-serialisable object)
         return rng.choice([5, "text", 1.5, True, [float("nan")], {"a": [float("inf")]}, [1, float("-inf")]]), "json"
     if k == 5:
-        return rng.choice(["ab", "", " ", "\t"]), "char"
+        return rng.choice(["ab", "", " ", "\t", "x\n", "\n", "x\r"]), "char"
     if k == 6:
         return rng.choice([[1, 2.5], [None], ["a"]]), "floatarray"
     if k == 7:
